@@ -106,7 +106,7 @@ func (h *harness) selfTest(phase string) *selfTestReport {
 		}
 		for _, w := range want {
 			if r.Sent[w] == 0 {
-				bad("%s: node never sent %q (sent: %v)", name, w, r.Sent)
+				bad("%s: node never sent %q (sent: %v) %s us=%d", name, w, r.Sent, r.Diag, r.Micros)
 			}
 		}
 		if d := h.blocksQueued.Load() - b0; d != wantBlocks {
